@@ -2,7 +2,7 @@
 #![allow(dead_code)]
 use super::*;
 use crate::kv::*;
-use crate::{kv_cover, kv_end};
+use crate::{kv_assert, kv_cover, kv_end};
 
 pub(crate) fn mk_dirty(len: usize, value: bool) -> DirtyLines {
     let mut v = Vec::with_capacity(len + 2);
@@ -31,14 +31,14 @@ pub(crate) fn dl_get(d: &DirtyLines, i: usize) -> bool {
 pub(crate) fn t_dirty(len: usize) {
     let mut d = any_dirty(len);
     let v = d.to_vec();
-    assert!(v.len() <= len, "[C02] no more changed lines than rows");
+    kv_assert!(v.len() <= len, "[C02] no more changed lines than rows");
     if v.len() >= 1 {
         let j = any_usize();
         assume(j < v.len());
-        assert!(v[j] < len, "[C02] changed-line indices are smaller than rows");
-        assert!(d.0[v[j]], "[C15] only flagged rows are reported");
+        kv_assert!(v[j] < len, "[C02] changed-line indices are smaller than rows");
+        kv_assert!(d.0[v[j]], "[C15] only flagged rows are reported");
         if j + 1 < v.len() {
-            assert!(v[j] < v[j + 1], "[C02] changed-line indices are strictly increasing");
+            kv_assert!(v[j] < v[j + 1], "[C02] changed-line indices are strictly increasing");
         }
     }
     let r = any_usize();
@@ -50,23 +50,23 @@ pub(crate) fn t_dirty(len: usize) {
                 found = true;
             }
         }
-        assert!(found, "[C15] every flagged row is reported");
+        kv_assert!(found, "[C15] every flagged row is reported");
     }
     d.clear();
-    assert!(!d.0[r], "[C15] flags are cleared once reported");
+    kv_assert!(!d.0[r], "[C15] flags are cleared once reported");
     // add / extend / resize keep the length and only set flags
     let a = any_usize();
     assume(a < len);
     d.add(a);
-    assert!(d.0[a] && d.0.len() == len, "[C15] add flags exactly that row");
+    kv_assert!(d.0[a] && d.0.len() == len, "[C15] add flags exactly that row");
     let lo = any_usize();
     let hi = any_usize();
     assume(lo <= hi && hi <= len);
     d.extend(lo..hi);
     if r >= lo && r < hi {
-        assert!(d.0[r], "[C15] extend flags every row of the range");
+        kv_assert!(d.0[r], "[C15] extend flags every row of the range");
     } else {
-        assert!(d.0[r] == (r == a), "[C15] extend flags only rows of the range");
+        kv_assert!(d.0[r] == (r == a), "[C15] extend flags only rows of the range");
     }
     kv_cover!(v.len() == len, "all rows changed");
     kv_cover!(v.len() == 0, "no row changed");
